@@ -754,6 +754,104 @@ func C14(p *Prog, r *Run) {
 					r.OK(pfx+".acc.init", p.Pos(okPos), "the running maximum starts at d")
 				}
 			}
+			// the converse of the base case: a node that is NOT a sensor is answered without an error only after the
+			// loop over its incoming links (the only place where deeper paths are measured) - or when it has no
+			// incoming link at all. A second "the path ends here" test (by role, by depth, ...) cuts paths short.
+			{
+				ncases, nfields := c14CasesOf(isSensor, false)
+				if mb.node != "recv" {
+					for i, cs := range ncases {
+						ren := map[string]bool{}
+						for k, v := range cs {
+							ren[c14RenameWord(k, "recv", mb.node)] = v
+						}
+						ncases[i] = ren
+					}
+				}
+				for _, f := range nfields {
+					if len(FieldStores(depth, f)) > 0 {
+						ncases = nil
+					}
+				}
+				if ncases == nil {
+					ncases = []map[string]bool{{}}
+				}
+				var linkLoop *Loop
+				for _, c := range recursion {
+					if l := scanLoopOf(Loops(depth), c.Block()); l != nil && loopRangesOver(tm, l, mb.node+".Incoming") {
+						linkLoop = l
+					}
+				}
+				if linkLoop == nil {
+					r.Bad(pfx+".non-sensor.traversal", p.Pos(depth.Pos()), "no loop over the node's incoming links contains the recursion")
+				} else {
+					isIncoming := func(v ssa.Value) bool { return T(v).String() == mb.node+".Incoming" }
+					var wit []string
+					var badPos token.Pos
+					undec := false
+					for _, cs := range ncases {
+						decide := func(cond ssa.Value) (bool, bool) {
+							neg := false
+							for {
+								if u, ok := cond.(*ssa.UnOp); ok && u.Op == token.NOT {
+									cond, neg = u.X, !neg
+									continue
+								}
+								break
+							}
+							if c, ok := cond.(*ssa.Call); ok && c.Call.StaticCallee() == isSensor && len(c.Call.Args) == 1 && c14IsParam(depth, c.Call.Args[0], 0) {
+								return neg, true
+							}
+							a, v := c14Lit(tm, cond, true)
+							if val, ok := cs[a]; ok {
+								return (val == v) != neg, true
+							}
+							return false, false
+						}
+						paths, complete := c14EnumPaths(depth, decide, 4000)
+						if !complete {
+							undec = true
+							continue
+						}
+						r.PathsExplored += len(paths)
+						for _, pa := range paths {
+							if len(pa.Ret.Results) != 2 {
+								continue
+							}
+							e := pa.Resolve(pa.Ret.Results[1])
+							if ec, isC := e.(*ssa.Const); !isC || ec.Value != nil {
+								continue // an error is reported: C14.3 and the propagation rule speak about those
+							}
+							through, empty := false, false
+							for _, b := range pa.Blocks {
+								if b == linkLoop.Header {
+									through = true
+								}
+							}
+							for _, g := range pa.Conds {
+								if LenZeroFact(g.Cond, g.True, isIncoming) == 1 {
+									empty = true
+								}
+							}
+							if !through && !empty && wit == nil {
+								badPos = pa.Ret.Pos()
+								for _, b := range pa.Blocks {
+									wit = append(wit, describeBlock(p, b, nil))
+								}
+							}
+						}
+					}
+					if undec {
+						r.Undecided(pfx+".non-sensor.traversal", p.Pos(depth.Pos()), "too many paths")
+					} else {
+						if !badPos.IsValid() {
+							badPos = depth.Pos()
+						}
+						r.Check(wit == nil, pfx+".non-sensor.traversal", p.Pos(badPos), "a node that is not a sensor is answered only after its incoming links were walked",
+							"a node that is not a sensor can be answered (no error) without walking its incoming links although it may have some: the part of the path behind it is not counted and the depth is under-reported", wit...)
+					}
+				}
+			}
 		}
 
 		maxOverOutputs(p.Func(PkgN, "Network.MaxActivationDepthWithCap"), "MaxDepth", func(_ ssa.Value, t *Term) bool { return isParamIdx(t, 1) }, "the cap parameter is passed on", nil)
